@@ -23,7 +23,8 @@ def D(profile="mix", n=12, steps=70, procs=4, **kw):
 def ctl(families_q, families_t, dq, dt, rule, required, nontrivial=None, emit_q=40, emit_t=60, max_cases_q=3000, max_cases_t=30000):
     return dict(kind="ctl", families=dict(quick=families_q, thorough=families_t), drives=drives(dq, dt), rule=rule,
                 required_facts=dict(quick=required), nontrivial_facts=nontrivial, assumptions=COMMON_ASSUMPTIONS,
-                emit_rate=dict(quick=emit_q, thorough=emit_t), max_state_cases=dict(quick=max_cases_q, thorough=max_cases_t))
+                emit_rate=dict(quick=emit_q, thorough=emit_t), max_state_cases=dict(quick=max_cases_q, thorough=max_cases_t),
+                sim=dict(quick=dict(num=4, depth=30), thorough=dict(num=60, depth=50)))
 
 
 PLANS = {
